@@ -51,11 +51,13 @@ Section SynExt.
     induction c as [op l r|ct it|p1 IH1 q1 IH2|p1 IH1 q1 IH2|p1 _|x|cs0 it0]; intros io st p st' Hc H;
       cbn [cond_shape] in Hc; try discriminate.
     - destruct l as [v ch| | |]; try discriminate. apply andb_true_iff in Hc. destruct Hc as [Hc _].
+      apply andb_true_iff in Hc. destruct Hc as [Hc _].
       apply andb_true_iff in Hc. destruct Hc as [Hc1 Hc2].
       cbn [tcond] in H. unfold tcmp in H. rewrite (teqjoin_none sc sel root vars io st op v ch r Hc1 Hc2) in H.
       destruct (negb (rel_check sc vars (eqne op) (OAttr v ch) r)); try discriminate.
       destruct (toperand sc vars sel root st (OAttr v ch)) as [a st1| | |] eqn:E1; try discriminate.
       destruct (toperand sc vars sel root st1 r) as [b st2| | |] eqn:E2; try discriminate.
+      destruct (negb (eqne op) && (enum_col sc vars (OAttr v ch) || enum_col sc vars r)); try discriminate.
       destruct (mk_cmp op a b); try discriminate. injection H as _ <-.
       eapply ext_trans; [eapply (toperand_ext (OAttr v ch)); eauto | eapply (toperand_ext r); eauto].
     - destruct ct as [| |cs|]; try discriminate. destruct it as [v ch| | |]; try discriminate.
@@ -702,7 +704,7 @@ Module WitJ.
   Definition q_namedvar := Wit.mk false [(1, 8); (2, 5)] (CCmp OEq (OVar 2) (OAttr 1 [10])).
   Definition q_namedvar_right := Wit.mk false [(1, 8); (2, 5)] (CCmp OEq (OAttr 1 [10]) (OVar 2)).
   (* class 13 Atom(element = 14 : Enum, type = 15): atoms 1 (C, 1), 2 (H, 0), 3 (C, 2); an Enum member is VStr (0 :: name) *)
-  Definition sce : schema := {| sc_fields := [(13, [(14, FScalar); (15, FScalar)])]; sc_sub := [(13, 13)] |}.
+  Definition sce : schema := {| sc_fields := [(13, [(14, FScalar); (15, FScalar)])]; sc_sub := [(13, 13)]; sc_enums := [(13, 14)] |}.
   Definition eC : val := VStr [0; 67].
   Definition eH : val := VStr [0; 72].
   Definition we : world :=
@@ -751,10 +753,25 @@ Lemma nonvacuous_enum :      (* a bare Enum attribute, == / in_ on it: inside F0
   f07 WitJ.sce WitJ.q_enum WitJ.we = true /\ model_res WitJ.sce WitJ.q_enum WitJ.we = Some (Ok [1; 3]) /\
   answers WitJ.sce WitJ.q_enum WitJ.we = Ok [1; 3].
 Proof. repeat split; vm_compute; reflexivity. Qed.
-Lemma refuted_enumorder :    (* a.element < Element.H: Enum members have no order in Python (TypeError); SQL orders the stored names *)
-  f07 WitJ.sce WitJ.q_enum_lt WitJ.we = false /\
-  model_res WitJ.sce WitJ.q_enum_lt WitJ.we = Some (Ok [1; 3]) /\ answers WitJ.sce WitJ.q_enum_lt WitJ.we = Err TypeErr.
+(* repaired (beaaa59): an ordering comparison on an Enum column is rejected.  Before, a.element < Element.H was answered by
+   ordering the stored member names ([1; 3] here) while memory raises TypeError *)
+Lemma fixed_enumorder :
+  translate WitJ.sce WitJ.q_enum_lt = TReject /\ answers WitJ.sce WitJ.q_enum_lt WitJ.we = Err TypeErr /\
+  f07 WitJ.sce WitJ.q_enum_lt WitJ.we = false.
 Proof. repeat split; vm_compute; reflexivity. Qed.
+Theorem rejects_enum_order sc q op l r :
+  q_cond q = Some (CCmp op l r) -> eqne op = false ->
+  (enum_col sc (q_vars q) l || enum_col sc (q_vars q) r) = true -> forall s, translate sc q <> TOk s.
+Proof.
+  intros Hc Ho He s. unfold translate. destruct (q_setof q); try discriminate. rewrite Hc.
+  destruct (assoc (q_sel q) (q_vars q)) as [root|]; try discriminate.
+  cbn [tcond]. unfold tcmp.
+  assert (E : teqjoin sc (q_vars q) root false jm0 op l r = None) by (destruct op; try discriminate; reflexivity).
+  rewrite E. destruct (negb (rel_check sc (q_vars q) (eqne op) l r)); try discriminate.
+  destruct (toperand sc (q_vars q) (q_sel q) root jm0 l) as [a st1| | |]; try discriminate.
+  destruct (toperand sc (q_vars q) (q_sel q) root st1 r) as [b st2| | |]; try discriminate.
+  rewrite Ho, He. discriminate.
+Qed.
 
 (* repaired (313603b): in_(p.x, {1, 2}) is IN (1, 2), inside F07 *)
 Lemma fixed_setlit :
